@@ -34,6 +34,7 @@ type vWorld struct {
 	failK  int
 	crashK int
 	sessUid map[string]types.Uid // the user each session logged in as (a restart stands for new connections: logged in again)
+	sessLvl map[string]auth.Level
 	uaTimers map[*Topic]*time.Timer
 	curUA  map[*Topic]*string
 }
@@ -976,6 +977,10 @@ func (w *vWorld) op(ws []string) (string, bool) {
 			w.sessUid = map[string]types.Uid{}
 		}
 		w.sessUid[ws[1]] = s.uid
+		if w.sessLvl == nil {
+			w.sessLvl = map[string]auth.Level{}
+		}
+		w.sessLvl[ws[1]] = s.authLvl
 		w.order = append(w.order, ws[1])
 		return "ok", true
 	case "fail":
@@ -1189,6 +1194,7 @@ func (w *vWorld) op(ws []string) (string, bool) {
 		for _, sn := range w.order {
 			s := w.sess[sn]
 			s.uid = w.sessUid[sn]
+			s.authLvl = w.sessLvl[sn]
 			s.subsLock.Lock()
 			s.subs = make(map[string]*Subscription)
 			s.subsLock.Unlock()
